@@ -10,6 +10,11 @@ HARNESSES = {
     'swar_kernel': {'crate': 'flussab', 'file': 'flussab/src/text.rs', 'overlay': 'kani/swar_kernel.rs', 'harnesses': ['swar_kernel'],
                     'fn': 'flussab::text::swar_ascii_digits_u64_le', 'complete': True,
                     'what': 'real SWAR kernel == byte-wise reference for all 2^64 words (loop-free; reference unwound 9 with unwinding assertions)'},
+    'comb': {'crate': 'flussab', 'file': 'flussab/src/parser.rs', 'overlay': 'kani/comb.rs', 'complete': True,
+             'harnesses': ['or_give_up_table', 'optional_table', 'matches_table', 'or_parse_table', 'or_always_parse_table', 'and_then_table',
+                           'and_also_table', 'and_do_table', 'map_table', 'map_err_table', 'err_into_table', 'from_result_table',
+                           'result_err_into_table', 'result_and_also_table', 'result_and_do_table'],
+             'what': 'every combinator x every input case x every closure outcome with call counters (symbolic u8 payloads, loop-free: complete)'},
 }
 
 
@@ -70,22 +75,30 @@ def run_harness_group(name, timeout=1500, repo=None):
         with open(os.path.join(tmp, '.cargo', 'config.toml'), 'w') as f:
             f.write('[net]\noffline = true\n')
         env = dict(os.environ, CARGO_NET_OFFLINE='true', CARGO_TARGET_DIR=os.path.join(tmp, 'target'))
-        cmds = []
+        cmd = ['cargo', 'kani', '-p', h['crate'], '-Z', 'concrete-playback', '--concrete-playback=print'] + h.get('args', [])
         for hn in h['harnesses']:
-            cmd = ['cargo', 'kani', '-p', h['crate'], '--harness', hn, '-Z', 'concrete-playback', '--concrete-playback=print'] + h.get('args', [])
-            cmds.append(' '.join(cmd))
-            t1 = time.time()
-            try:
-                p = subprocess.run(cmd, cwd=tmp, env=env, capture_output=True, text=True, timeout=timeout)
-                out = p.stdout + '\n' + p.stderr
-            except subprocess.TimeoutExpired as e:
-                res['harnesses'].append({'harness': hn, 'result': 'timeout', 'wall_s': round(time.time() - t1, 1)})
-                res['status'] = 'undecided'
-                res['reason'] = 'kani timeout on %s' % hn
-                continue
-            hr = {'harness': hn, 'wall_s': round(time.time() - t1, 1)}
-            m = re.search(r'VERIFICATION:- (SUCCESSFUL|FAILED)', out)
-            checks = re.search(r'\*\* (\d+) of (\d+) failed', out)
+            cmd += ['--harness', hn]
+        cmds = [' '.join(cmd)]
+        t1 = time.time()
+        out = ''
+        try:
+            p = subprocess.run(cmd, cwd=tmp, env=env, capture_output=True, text=True, timeout=timeout)
+            out = p.stdout + '\n' + p.stderr
+        except subprocess.TimeoutExpired as e:
+            res['status'] = 'undecided'
+            res['reason'] = 'kani timeout'
+            out = (e.stdout or b'').decode('utf8', 'replace') if isinstance(e.stdout, bytes) else (e.stdout or '')
+        segs = re.split(r'Checking harness ', out)
+        seen = {}
+        for seg in segs[1:]:
+            hn_full = seg.split('...')[0].strip()
+            hn = hn_full.split('::')[-1]
+            hr = {'harness': hn}
+            m = re.search(r'VERIFICATION:- (SUCCESSFUL|FAILED)', seg)
+            checks = re.search(r'\*\* (\d+) of (\d+) failed', seg)
+            tm = re.search(r'Verification Time: ([0-9.]+)s', seg)
+            if tm:
+                hr['wall_s'] = float(tm.group(1))
             if checks:
                 hr['checks_failed'] = int(checks.group(1))
                 hr['checks_total'] = int(checks.group(2))
@@ -93,13 +106,12 @@ def run_harness_group(name, timeout=1500, repo=None):
                 hr['result'] = 'successful'
             elif m:
                 hr['result'] = 'failed'
-                failed = re.findall(r'Failed Checks: (.*)', out)
+                failed = re.findall(r'Failed Checks: (.*)', seg)
                 hr['failed_checks'] = failed[:10]
-                pb = re.search(r'Concrete playback unit test for `[^`]*`:\s*```\s*(.*?)```', out, re.S)
+                pb = re.search(r'Concrete playback unit test for `[^`]*`:\s*```\s*(.*?)```', seg, re.S)
                 if pb:
                     hr['playback'] = pb.group(1)[:4000]
-                    hr['concrete_bytes'] = re.findall(r'vec!\[([^\]]*)\]', pb.group(1))
-                unwind = any('unwinding assertion' in f for f in failed)
+                    hr['concrete_bytes'] = re.findall(r'vec!\[([0-9, ]*)\]', pb.group(1))
                 if failed and all('unwinding assertion' in f for f in failed):
                     hr['result'] = 'undecided'
                     res['reason'] = 'unwinding assertion failed in %s: bound too small for the changed code' % hn
@@ -109,11 +121,15 @@ def run_harness_group(name, timeout=1500, repo=None):
                     res['status'] = 'failed'
             else:
                 hr['result'] = 'error'
-                hr['tail'] = out[-3000:]
                 if res['status'] == 'ok':
                     res['status'] = 'undecided'
-                    res['reason'] = 'kani produced no verdict for %s (compile error or unsupported construct)' % hn
+                    res['reason'] = 'kani produced no verdict for %s' % hn
+            seen[hn] = hr
             res['harnesses'].append(hr)
+        missing = [hn for hn in h['harnesses'] if hn not in seen]
+        if missing and res['status'] != 'failed':
+            res['status'] = 'undecided'
+            res['reason'] = 'kani produced no verdict for %s (compile error or unsupported construct): %s' % (missing[:3], out[-1500:])
         res['cmd'] = ' ; '.join(cmds)
     finally:
         shutil.rmtree(tmp, ignore_errors=True)
